@@ -90,7 +90,7 @@ var defC11F = register(&PropDef{
 		return cfg
 	},
 	Init: fInit,
-	Step: withReportsAfterStop(fStep(FProfile{MaxConsumers: 2, Remove: true, TwoConsumerPrelude: 60, Weights: map[string]int{"timeout": 6, "bigdt": 3, "remove": 1, "staking": 8, "relay": 8, "errack": 4, "raw": 3}})),
+	Step: withReportsAfterStop(fStep(FProfile{MaxConsumers: 2, Remove: true, TwoConsumerPrelude: 60, Weights: map[string]int{"timeout": 10, "bigdt": 3, "remove": 0, "staking": 8, "relay": 8, "errack": 2, "raw": 3}})),
 	Monitor: func(w *world.World) oracle.Monitor { return oracle.NewC11(w) },
 	Finish:  finishF,
 })
@@ -120,6 +120,32 @@ func withReportsAfterStop(base func(t *rapid.T, w *world.World) world.Action) fu
 					world.Action{Kind: world.KRelay, Consumer: id, Relay: &world.RelaySpec{Op: "recv", Dir: "c2p", K: 2}},
 					world.Action{Kind: world.KBlock, Dt: 2e9})
 				return raw
+			}
+		}
+		// sometimes the owner stops a consumer whose channel is established, and the consumer keeps reporting
+		if f := w.F(); f != nil && len(w.Agenda) == 0 && len(w.Trace) > 1 && rapid.IntRange(0, 999).Draw(t, "stop-then-report") < 3 {
+			for _, id := range w.ConsumersInPhase(world.PhLaunched) {
+				p := f.Paths[id]
+				if p == nil || p.C.Halted {
+					continue
+				}
+				if _, ok := p.C.CApp.ConsumerKeeper.GetProviderChannel(p.C.Ctx()); !ok {
+					continue
+				}
+				owner := w.OwnerName(w.ObserveConsumer(id).Owner)
+				if owner == "" || owner == "gov" || w.Busy(owner) {
+					continue
+				}
+				raw := genRawPacket(t, w, id)
+				raw.Pkt.Infraction = "downtime"
+				w.Agenda = append(w.Agenda,
+					world.Action{Kind: world.KBlock, Dt: 2e9},
+					raw,
+					world.Action{Kind: world.KBlock, Chain: id, Dt: 1e9},
+					world.Action{Kind: world.KBlock, Chain: id, Dt: 1e9},
+					world.Action{Kind: world.KRelay, Consumer: id, Relay: &world.RelaySpec{Op: "recv", Dir: "c2p", K: 2}},
+					world.Action{Kind: world.KBlock, Dt: 2e9})
+				return world.Action{Kind: world.KRemoveConsumer, Sender: owner, Consumer: id}
 			}
 		}
 		return base(t, w)
